@@ -18,7 +18,7 @@ E_ADVANCE = 9004
 RULE = ("every nesting of the harness family (31 Rust types: Signer/Mut/MaybeSigner/MaybeMut/Program/Sysvar/"
         "SystemAccount/#[validate(address)]/Box/nested struct, depth <= 4), plain and wrapped in Option, x all 4 "
         "signer/writable flag combinations x account key in {expected key, each of its 256 one-bit flips, 32 one-byte "
-        "changes, the current program id, random} x owner in {system, one-bit flips, random} x present/absent. "
+        "changes, the current program id, random} x owner in {system, one-bit flips, random} x present/absent, and the same decisions repeated on accounts with a balance of 0 / u64::MAX / around the rent minimum and with data present (state no check may depend on). "
         "non-trivial = accepted, or rejected while differing from an accepted account in one bit / one flag")
 TRUSTED = [
     "Coq 8.16.1 kernel", "extraction (ExtrOcamlBasic only) + runner/driver.ml",
@@ -94,8 +94,11 @@ def _expected_key(sig, keys):
 PROG = [55] * 32
 
 
-def _case(present, key, owner, sg, wr, opt, layers):
-    return PROG + [int(present)] + key + owner + [int(sg), int(wr), int(opt)] + layers
+def _case(present, key, owner, sg, wr, opt, layers, lam=0, dat=0):
+    """lam / dat: classes of lamport balance (0: 1 lamport, 1: ZERO, 2: u64::MAX, 3/4: around the rent minimum, 5: large) and
+    data (0: empty, 1: 8 zero bytes, 2: 100 bytes, 3: 9 x 0xff) - state no check of this property may depend on; it rides
+    in the `present` code, which the model reads as a boolean"""
+    return PROG + [(1 + 2 * lam + 16 * dat) if present else 0] + key + owner + [int(sg), int(wr), int(opt)] + layers
 
 
 def gen_cases(rng, tier):
@@ -142,6 +145,17 @@ def gen_cases(rng, tier):
                         add(_case(1, k, base_owner, sg, wr, opt, layers))
                     for o in owner_variants[1:]:
                         add(_case(1, base_key, o, sg, wr, opt, layers))
+                    # the same decisions on accounts in other states (balance zero / huge / at the rent minimum, with data)
+                    few_owners = [base_owner, owner_variants[1], owner_variants[-1], [44] * 32, PROG]
+                    few_keys = key_variants[:3] + key_variants[-1:]
+                    for lam in range(6):
+                        for dat in range(4):
+                            if lam == 0 and dat == 0:
+                                continue
+                            for o in few_owners:
+                                add(_case(1, base_key, o, sg, wr, opt, layers, lam, dat))
+                            for k in few_keys:
+                                add(_case(1, k, base_owner, sg, wr, opt, layers, lam, dat))
     if tier == "thorough":
         for _ in range(60000):
             sig = rng.choice(sigs)
@@ -187,6 +201,7 @@ LN = {1: "Signer", 2: "Mut", 3: "MaybeSigner", 4: "MaybeMut", 5: "Program", 6: "
 def describe(c):
     prog, present, key, owner, sg, wr, opt, layers = _decode(c)
     return {"present": bool(present), "key": key, "owner": owner, "is_signer": bool(sg), "is_writable": bool(wr),
+            "lamports_class": ((c[32] - 1) // 2) % 8 if c[32] else None, "data_class": ((c[32] - 1) // 16) % 4 if c[32] else None,
             "optional": bool(opt), "checks_in_order": [[LN[l[0]]] + list(l[1:]) for l in layers]}
 
 
